@@ -399,7 +399,7 @@ def r4_kernel_table(ck, P):
 
 def r_axis_consistency(ck, P, rid):
     """the x phase/width header fields are only ever combined with each other, likewise the y fields"""
-    R = ck.rule(rid, 'in every reader of the separable-convolution block, products and shifts never combine a value derived from the x header fields (width, x phase bits) with one derived from the y header fields (height, y phase bits): the y kernel row is selected by the y phase, the x kernel row by the x phase', floor=6)
+    R = ck.rule(rid, 'in every reader of the separable-convolution block, products and shifts never combine a value derived from the x header fields (width, x phase bits) with one derived from the y header fields (height, y phase bits), and a sample coordinate is offset only by values derived from the header fields of its own axis: the y kernel row is selected by the y phase and centred with the height, the x kernel row by the x phase and the width', floor=6)
     AX = {0: 'x', 2: 'x', 1: 'y', 3: 'y'}
     NAME = {0: 'width', 1: 'height', 2: 'x_phase_bits', 3: 'y_phase_bits'}
     n = 0
@@ -436,6 +436,49 @@ def r_axis_consistency(ck, P, rid):
             return r
 
         ck.saw(f)
+        # sample coordinates: values derived from vector[0] / matrix[0][*] (x) or vector[1] / matrix[1][*] (y), or from parameters x / y
+        cmemo = {}
+
+        def Cx(o):
+            if o[0] == 'a':
+                nm = f.params[o[1]][0]
+                return frozenset([nm]) if nm in ('x', 'y') else frozenset()
+            if o[0] != 'v':
+                return frozenset()
+            if o[1] in cmemo:
+                return cmemo[o[1]]
+            cmemo[o[1]] = frozenset()
+            x = f.by_id[o[1]]
+            if x.op == 'load':
+                st = [str(q) for q in f.path(x.a[0])[1]]
+                r = frozenset()
+                for fld in ('pixman_vector.vector', 'pixman_transform.matrix'):
+                    if fld in st:
+                        k = st.index(fld)
+                        if k + 1 < len(st) and st[k + 1] in ('[0]', '[1]'):
+                            r = frozenset(['x' if st[k + 1] == '[0]' else 'y'])
+            elif x.op in ('call', 'alloca', 'getelementptr'):
+                r = frozenset()
+            else:
+                r = frozenset()
+                for a in x.a:
+                    r |= Cx(a)
+            cmemo[o[1]] = r
+            return r
+        for x in f.insts():
+            if x.op not in ('add', 'sub'):
+                continue
+            for a, b in ((x.a[0], x.a[1]), (x.a[1], x.a[0])):
+                ca, hb = Cx(a), H(b)
+                if len(ca) != 1 or not hb or Cx(b):
+                    continue
+                n += 1
+                hax = {AX[k] for k in hb}
+                what = '%s of the %s coordinate and [%s]' % (x.op, list(ca)[0], ','.join(NAME[k] for k in sorted(hb)))
+                if hax == set(ca):
+                    ck.ok(R, '%s: %s' % (f.name, what))
+                else:
+                    ck.violation(R, f.name, what, '%s offsets the %s sample coordinate by a value derived from the %s-axis header field(s) %s (%s): the kernel window of one axis is centred with the size of the other, so a non-square kernel is applied %s rows / columns off and the readers disagree' % (f.name, list(ca)[0], '/'.join(sorted(hax)), ','.join(NAME[k] for k in sorted(hb)), x.op, 'half the size difference in'), x.loc())
         for x in f.insts():
             if x.op not in ('mul', 'shl', 'lshr', 'ashr'):
                 continue
